@@ -2,7 +2,8 @@
 from core import Ob, Wrapper
 import grid as G
 
-ASSUMPTIONS = ['that the implicit-constructibility predicate is TOTAL and equals the documented formula on every (U1,R1,U2,R2) is a compile-time trait: not decided by '
+ASSUMPTIONS = ['supporting static facts (C06.static.*): the compile-time predicate is compared with the documented formula on a grid by static_assert probes; they are discharged by the compiler, not by the verifier, are reported separately and are not counted as proved obligations; a mismatch or a hard error is still reported as a violation of C06',
+               'that the implicit-constructibility predicate is TOTAL and equals the documented formula on every (U1,R1,U2,R2) is a compile-time trait: not decided by '
                'a function contract (DESIGN.md section 5, C06); decided here: every permitted conversion of the grid is an exact multiplication by k and cannot '
                'overflow for |x| <= 2147, the run-time threshold function can_scale_without_overflow, and the threshold constant']
 
@@ -61,6 +62,33 @@ def obligations(tier, seed):
                       twin=body.replace(G.lit(k), G.lit(k + 1)) if G.tmax(rep) // k != G.tmax(rep) // (k + 1) else None,
                       contract='forall v:%s: can_scale_without_overflow<%s>(mag<%d>(), v) == (v*%d <= max(%s))' % (ct, ct, k, k, ct),
                       functions_under_contract=('au::can_scale_without_overflow',)))
+    # ---- supporting static facts (second class, reported separately): the compile-time predicate against the documented formula
+    sgrid = [('i32', 'i32', 1000, 1), ('i32', 'i32', 1000000, 1), ('i32', 'i32', 1000001, 1), ('i32', 'i32', 1, 1000), ('i32', 'i32', 3, 2), ('i32', 'i32', 1, 1),
+             ('u8', 'u8', 2, 1), ('u8', 'u8', 1, 1), ('i8', 'i8', 2, 1), ('i16', 'i16', 15, 1), ('i16', 'i16', 16, 1), ('u16', 'u16', 30, 1), ('u16', 'u16', 31, 1),
+             ('i64', 'i64', 4294967296000, 1), ('i64', 'i64', 4300000000000000, 1), ('u64', 'u64', 8589934591999, 1), ('u32', 'u32', 2000000, 1), ('u32', 'u32', 2000001, 1),
+             ('i32', 'f32', 1, 1000), ('f64', 'i32', 1, 1), ('f64', 'i32', 1000, 1), ('i32', 'f64', 7, 3), ('i8', 'i32', 1000000, 1), ('i32', 'i8', 1, 1), ('i16', 'i32', 1, 1),
+             ('u8', 'i16', 15, 1), ('i32', 'u32', 1, 1), ('i64', 'i32', 1, 1), ('i16', 'i16', 100000, 1), ('u8', 'u8', 256, 1), ('i8', 'i8', 128, 1)]
+    if tier == 'quick': sgrid = sgrid[::2] + [sgrid[7], sgrid[29]]
+    for (R1, R2, N, D) in sgrid:
+        c1, c2 = G.ctype(R1), G.ctype(R2)
+        integral_k = (D == 1)
+        if G.is_fp(R2): exp = True
+        elif G.is_fp(R1): exp = False
+        elif (N, D) == (1, 1): exp = True     # identity between integral reps (integer-promotion carve-out / assignable)
+        else: exp = integral_k and 2147 * N <= G.tmax(R2)
+        src = '''#include <type_traits>
+#include "au/au.hh"
+#include "au/units/meters.hh"
+#include "au/units/seconds.hh"
+struct VU_s : decltype(au::Meters{} * au::mag<%dULL>() / au::mag<%dULL>()) {};
+#define VF_STATIC_FACT(c) static_assert(c, "VF_STATIC_FACT")
+VF_STATIC_FACT((std::is_convertible<au::Quantity<%s, %s>, au::Quantity<au::Meters, %s>>::value) == %s);
+VF_STATIC_FACT((std::is_convertible<au::Quantity<au::Seconds, %s>, au::Quantity<au::Meters, %s>>::value) == false);
+int main() {}
+''' % (N, D, 'VU_s' if (N, D) != (1, 1) else 'au::Meters', c1, c2, 'true' if exp else 'false', c1, c2)
+        obs.append(Ob(id='C06.static.%s_%s_%d_%d' % (R1, R2, N, D), prop='C06', group='C06.static', prelude='', wrappers=[], inputs=[], body=src, kind='S',
+                      contract='static fact: is_convertible<Quantity<Meters*%d/%d, %s>, Quantity<Meters, %s>> == %s (documented formula), and a dimension mismatch answers false without a hard error'
+                               % (N, D, c1, c2, exp), functions_under_contract=('au::ConstructionPolicy::PermitImplicitFrom (compile-time)',)))
     w = Wrapper('w_threshold', 'int32_t', [], 'return au::detail::OVERFLOW_THRESHOLD;')
     obs.append(Ob(id='C06.threshold-constant', prop='C06', group='C06.canscale', prelude='#include "au/units/meters.hh"', wrappers=[w], inputs=[],
                   body='\n  CHECK(%s() == 2147, "overflow-threshold-is-2147");\n' % w.name, contract='au::detail::OVERFLOW_THRESHOLD == 2147',
